@@ -271,15 +271,20 @@ def selected_fields(
             fieldnames.append(joined)
 
         if (not maxdepth) or len(_path) < (maxdepth - 1):
-            fieldnames.extend(
-                selected_fields(
-                    child_field,
+            # Fields sharing a response key are merged at execution time so
+            # all of their sub selections contribute.
+            nested = []  # type: List[str]
+            for same_key_field in fields:
+                for path in selected_fields(
+                    same_key_field,
                     fragments=fragments,
                     variables=variables,
                     maxdepth=maxdepth,
                     pattern=pattern,
                     _path=child_path,
-                )
-            )
+                ):
+                    if len(fields) == 1 or path not in nested:
+                        nested.append(path)
+            fieldnames.extend(nested)
 
     return fieldnames
